@@ -61,6 +61,8 @@ pub mod packets {
         open spec fn spec_dec(b: Seq<u8>) -> Option<(usize, int)> { prr_dec(b) }
         open spec fn progresses() -> bool { false }
         open spec fn self_delimiting() -> bool { false }
+        open spec fn dec_rel(b: Seq<u8>, v: &usize, k: int) -> bool { true }
+        open spec fn dec_total() -> bool { false }
         open spec fn functional() -> bool { false }
         //@ fn src:zvt/src/packets.rs | impl encoding::Encoding<usize> for PartialReversalReceiptNo | decode | ext
         //@ end
@@ -134,22 +136,32 @@ pub mod feig {
             broadcast use {crate::frame::lemma_tail_trans, crate::frame::lemma_tail_refl, crate::frame::lemma_tail_intro, crate::frame::lemma_tail_elim};
             //@ item src:zvt/src/feig/packets/tlv.rs | struct Custom
             pub uninterp spec fn custom_dec(b: Seq<u8>) -> Option<(Vec<u8>, int)>;
-            /// raw payload bytes (firmware blocks). Trusted shell: `Vec::clone`/`to_vec` copies.
+            /// raw payload bytes (firmware blocks): copied verbatim in both directions. `Vec` has no spec-level
+            /// equality, so the decoder is specified by the relation `dec_rel` over the view instead of `spec_dec`.
             impl encoding::Encoding<Vec<u8>> for Custom {
                 open spec fn enc_ok(v: &Vec<u8>) -> bool { true }
                 open spec fn canon(v: &Vec<u8>) -> bool { false }
                 open spec fn spec_enc(v: &Vec<u8>) -> Seq<u8> { v@ }
                 open spec fn spec_dec(b: Seq<u8>) -> Option<(Vec<u8>, int)> { custom_dec(b) }
+                open spec fn dec_rel(b: Seq<u8>, v: &Vec<u8>, k: int) -> bool { v@ == b && k == b.len() }
+                open spec fn dec_total() -> bool { true }
                 open spec fn progresses() -> bool { false }
                 open spec fn self_delimiting() -> bool { false }
                 open spec fn functional() -> bool { false }
-                //@ fn src:zvt/src/feig/packets/tlv.rs | impl encoding::Encoding<Vec<u8>> for Custom | encode | ext
+                //@ fn src:zvt/src/feig/packets/tlv.rs | impl encoding::Encoding<Vec<u8>> for Custom | encode | props=C03,C11
                 //@ end
-                //@ fn src:zvt/src/feig/packets/tlv.rs | impl encoding::Encoding<Vec<u8>> for Custom | decode | ext
+                //@ fn src:zvt/src/feig/packets/tlv.rs | impl encoding::Encoding<Vec<u8>> for Custom | decode | props=C02,C14
                 //@ end
                 proof fn law_dec_bounds(b: Seq<u8>) {}
                 proof fn law_dec_frame(b: Seq<u8>, s: Seq<u8>) {}
                 proof fn law_inverse(v: &Vec<u8>) {}
+            }
+            /// after the (optional) tag: TLV length, then exactly that many bytes, copied
+            pub open spec fn raw_body_defined(b1: Seq<u8>) -> bool {
+                <length::Tlv as length::Length>::spec_deser(b1) matches Some((n, kl)) && n <= b1.len() - kl
+            }
+            pub open spec fn raw_body_ok(b1: Seq<u8>, v: Seq<u8>, k1: int) -> bool {
+                <length::Tlv as length::Length>::spec_deser(b1) matches Some((n, kl)) && k1 == kl + n && v =~= b1.subrange(kl, kl + n)
             }
             /// TLV-wrapped raw bytes; an empty payload is not written at all
             impl<TE: encoding::Encoding<Tag>> ZvtSerializerImpl<length::Tlv, Custom, TE> for Vec<u8> {
@@ -158,10 +170,23 @@ pub mod feig {
                     if self@.len() == 0 { Seq::<u8>::empty() } else { crate::tag_bytes::<TE>(tag) + <length::Tlv as length::Length>::spec_ser(self@.len() as usize) + self@ }
                 }
                 open spec fn deser_pre(tag: Option<Tag>) -> bool { true }
-                open spec fn functional() -> bool { false }
+                /// completely specified whenever the tag decoder is
+                open spec fn functional() -> bool { TE::functional() }
                 open spec fn deser_progresses(tag: Option<Tag>) -> bool { tag is Some && TE::progresses() }
-                open spec fn deser_defined(b: Seq<u8>, tag: Option<Tag>) -> bool { true }
-                open spec fn deser_ok(b: Seq<u8>, tag: Option<Tag>, v: Self, k: int) -> bool { true }
+                /// succeeds exactly when the expected tag is there and the announced length fits
+                open spec fn deser_defined(b: Seq<u8>, tag: Option<Tag>) -> bool {
+                    match tag {
+                        Some(t) => TE::spec_dec(b) matches Some((t2, kt)) && t2 == t && raw_body_defined(b.skip(kt)),
+                        None => raw_body_defined(b),
+                    }
+                }
+                /// the value is exactly the announced bytes, and exactly tag + length + those bytes are consumed
+                open spec fn deser_ok(b: Seq<u8>, tag: Option<Tag>, v: Self, k: int) -> bool {
+                    match tag {
+                        Some(t) => TE::spec_dec(b) matches Some((t2, kt)) && raw_body_ok(b.skip(kt), v@, k - kt),
+                        None => raw_body_ok(b, v@, k),
+                    }
+                }
                 //@ fn src:zvt/src/feig/packets/tlv.rs | impl ZvtSerializerImpl<length::Tlv,Custom,TE> for Vec<u8> | deserialize_tagged | props=C02,C14
                 //@ end
                 //@ fn src:zvt/src/feig/packets/tlv.rs | impl ZvtSerializerImpl<length::Tlv,Custom,TE> for Vec<u8> | serialize_tagged | props=C03
